@@ -251,3 +251,21 @@ Lemma r_ok_hyps :
   no_empty_header_value [] r_ok = true /\ body_not_at r_ok = true /\ url_not_option r_ok = true /\
   length (argv_of [] r_ok) = 9%nat.
 Proof. vm_compute. repeat split; reflexivity. Qed.
+
+(* ---- the printed report block ---- *)
+Lemma lex_leading_spaces s acc : lex (SP :: s) Bare None acc = lex s Bare None acc.
+Proof. cbn [lex]. change (N.eqb SP 0) with false. change (N.eqb SP SP) with true. reflexivity. Qed.
+
+Lemma report_block_words known r : safe_word (method r) = true -> req_no_nul known r = true ->
+  sh_words (report_block known r) = Some (argv_of known r).
+Proof.
+  intros Hm Hn. unfold report_block, sh_words. cbn [app]. rewrite !lex_leading_spaces.
+  exact (command_words known r Hm Hn).
+Qed.
+
+Definition r_multiline : req :=
+  {| method := [80;85;84]; url := W_url; body := Some [97;10;98]; verify := true; headers := [] |}.
+Lemma report_block_indent_all_refuted :
+  sh_words (report_block_indent_all [] r_multiline) <> Some (argv_of [] r_multiline) /\
+  sh_words (report_block [] r_multiline) = Some (argv_of [] r_multiline).
+Proof. vm_compute. split; [discriminate | reflexivity]. Qed.
